@@ -192,6 +192,19 @@ static void PlatformSpecificRestoreJumpBufferImplementation()
     jmp_buf_index--;
 }
 
+#ifdef CPPUTEST_VERIF_HOOKS
+/* Read-only accessors for runtime monitors: depth of the setjmp stack and its capacity */
+int CppUTestVerif_JumpBufferDepth(void)
+{
+    return jmp_buf_index;
+}
+
+int CppUTestVerif_JumpBufferCapacity(void)
+{
+    return (int) (sizeof(test_exit_jmp_buf) / sizeof(test_exit_jmp_buf[0]));
+}
+#endif
+
 void (*PlatformSpecificLongJmp)() = PlatformSpecificLongJmpImplementation;
 int (*PlatformSpecificSetJmp)(void (*)(void*), void*) = PlatformSpecificSetJmpImplementation;
 void (*PlatformSpecificRestoreJumpBuffer)() = PlatformSpecificRestoreJumpBufferImplementation;
